@@ -35,6 +35,98 @@ func runC25(c *Ctx) {
 	for _, rel := range c25Pkgs {
 		c.checkClientPairing(rel, sms[rel])
 	}
+	c.checkAnswerCaches()
+}
+
+// checkAnswerCaches: a client that answers a call from a remembered reply (local-state-query's current era) instead of
+// asking again returns the reply to an earlier request. That is only its own answer while the acquired point is the
+// same: whenever a cache field is filled from a reply, every successful acquire must invalidate it.
+func (c *Ctx) checkAnswerCaches() {
+	rel := "protocol/localstatequery"
+	if c.PkgOpt(rel) == nil {
+		return
+	}
+	// cache fields: client fields a query method returns without sending (read, compared with a sentinel, returned)
+	get := c.FuncObjOpt(rel, "Client.getCurrentEra")
+	if get == nil {
+		c.Ok("answer-cache-fresh", rel+":none", 0, "no remembered answers")
+		return
+	}
+	fn := c.SSAOf(get)
+	field := ""
+	for _, b := range fn.Blocks {
+		if r, ok := b.Instrs[len(b.Instrs)-1].(*ssa.Return); ok && len(r.Results) > 0 {
+			if t := trace(r.Results[0]); strings.HasSuffix(t, "<p0") && !strings.Contains(t, "(") {
+				field = strings.TrimSuffix(t, "<p0")
+			}
+		}
+	}
+	if field == "" {
+		c.Ok("answer-cache-fresh", rel+":none", fn.Pos(), "the current era is asked for on every call")
+		return
+	}
+	// is the cache ever filled with a reply?
+	live := ""
+	for _, g := range c.pkgFuncs(rel) {
+		for _, in := range fnInstrs(g) {
+			st, ok := in.(*ssa.Store)
+			if !ok {
+				continue
+			}
+			fa, ok := st.Addr.(*ssa.FieldAddr)
+			if !ok || fieldName(fa.X.Type(), fa.Field) != field {
+				continue
+			}
+			if k, isK := st.Val.(*ssa.Const); isK && k.Value != nil && k.Int64() < 0 {
+				continue // the "nothing remembered" sentinel
+			}
+			if g.Name() == "NewClient" || (g.Parent() != nil && g.Parent().Name() == "NewClient") {
+				continue
+			}
+			live = ssaFuncKey(g)
+		}
+	}
+	key := rel + ".(*Client)." + field
+	if live == "" {
+		c.Ok("answer-cache-fresh", key, fn.Pos(), "the remembered era is never filled from a reply: every call asks")
+		return
+	}
+	// every successful acquire drops it
+	acq := c.FuncObjOpt(rel, "Client.handleAcquired")
+	if acq == nil {
+		c.Undecided("%s is filled in %s but Client.handleAcquired was not found", key, live)
+		return
+	}
+	af := c.SSAOf(acq)
+	reset := map[*ssa.BasicBlock]bool{}
+	for _, in := range fnInstrs(af) {
+		if st, ok := in.(*ssa.Store); ok {
+			if fa, ok := st.Addr.(*ssa.FieldAddr); ok && fieldName(fa.X.Type(), fa.Field) == field {
+				if k, isK := st.Val.(*ssa.Const); isK && k.Value != nil && k.Int64() < 0 {
+					reset[st.Block()] = true
+				}
+			}
+		}
+	}
+	seen := map[*ssa.BasicBlock]bool{}
+	var walk func(b *ssa.BasicBlock)
+	walk = func(b *ssa.BasicBlock) {
+		if seen[b] || reset[b] {
+			return
+		}
+		seen[b] = true
+		for _, sb := range b.Succs {
+			walk(sb)
+		}
+	}
+	walk(af.Blocks[0])
+	stale := ""
+	for _, r := range successReturns(af) {
+		if seen[r.Block()] {
+			stale = c.pos(r.Pos())
+		}
+	}
+	c.Check(stale == "", "answer-cache-fresh", key, af.Pos(), "every successful acquire forgets the remembered era", "the era remembered from a reply (filled in "+live+") survives an acquire (return at "+stale+" without resetting it): after re-acquiring another point GetCurrentEra and every era-dependent query answer from the reply to a request made before the re-acquire")
 }
 
 // handlerClosure: functions of the package reachable from Client.messageHandler through static calls (no go).
